@@ -307,6 +307,9 @@ def collect(ctx):
                 if os.path.exists(trace) and os.path.getsize(trace):
                     traces.append(trace)
                 break
+            if any(r.get("kind") == "violation" and r.get("class") == "timer-goroutine-wedged" for r in rs):
+                done += (last or {}).get("i", 0)
+                break
             if rc == 3 and any(r.get("kind") == "violation" and r.get("predicate") == "NoLostStart" for r in rs):
                 done += (last or {}).get("i", 0)
                 died += 1
